@@ -163,7 +163,7 @@ func ruleCurvePolicy(c *Ctx, r *Report) {
 	hdr := loopHeaderOf(sel[0].Block())
 	adv := false
 	w.Visit = func(in ssa.Instruction, _ map[*ssa.Phi]Val) bool {
-		if hdr != nil && in == hdr.Instrs[0] {
+		if hdr != nil && in == firstNonPhi(hdr) {
 			adv = true // continued with the next extension: the failure was ignored
 			return false
 		}
